@@ -33,6 +33,7 @@ type Engine struct {
 	globalInit map[*ssa.Global][]globalInitFact
 	repoDir   string
 	ghostTypes []string
+	perReturn  bool // debug: one post obligation per return statement
 }
 
 type globalInitFact struct {
